@@ -258,7 +258,7 @@ func sameElem[T comparable](d *Dom[T], a, b T) bool {
 	if d.Elem == "float" {
 		return d.Str(a) == d.Str(b)
 	}
-	return a == b
+	return a == b // (for `any` elements: == on interfaces, which is what the containers use)
 }
 
 func sameSeq[T comparable](d *Dom[T], a, b []T) bool {
